@@ -149,12 +149,67 @@ def type_block_desugar(a):
         a.candidates.append(c)
 
 
+def quoting_wiring(a):
+    """single- and double-quoted strings: one worker parameterised by the delimiter; everything it does with a quote
+    character it does with THE delimiter it was given, and the text between is kept verbatim"""
+    ex = a.exec(r"(?:rules::parser::)?parse_string_inner::\{closure#0\}",
+                {"call_mut": m_result_opq, "call": m_result_opq, "parse": m_result_opq, "branch": mirexec.m_try_branch,
+                 "from_residual": mirexec.m_from_residual, "ends_with": lambda ex, av: ex.havoc("bool"), "is_empty": lambda ex, av: ex.havoc("bool"),
+                 "new": lambda ex, av: ex.opq()},
+                log=("*",), unroll=2, max_paths=5000)
+    a.fns.append("rules::parser::parse_string_inner::{closure#0}")
+    env = ex.arg_env["_1"]
+    delim = None
+    bad, nret = [], 0
+    for p in ex.paths:
+        evs = [e for e in p.events if e[0] == "call"]
+        chars = [e for e in evs if e[1] == "char"]
+        if delim is None and chars:
+            delim = chars[0][2][0]
+        probs = []
+        news = [e for e in evs if e[1] == "new" and not e[2]]
+        acc = news[0][3] if news else None
+        for e in chars:
+            if str(e[2][0]) != str(delim):
+                probs.append("an opening / closing quote other than the delimiter given")
+        for e in evs:
+            if e[1] == "take_while" and not (e[2] and e[2][0][0] == "struct" and str(e[2][0][2].get("ch")) == str(delim)):
+                probs.append("the text is not read up to the delimiter given")
+            if e[1] == "push" and not (acc is not None and str(e[2][0]) == str(acc) and str(e[2][1]) == str(delim)):
+                probs.append("an escaped quote is restored as something other than the delimiter given")
+            if e[1] == "push_str" and not (acc is not None and str(e[2][0]) == str(acc)):
+                probs.append("text appended to another string")
+        r = p.ret
+        if p.outcome == "return" and r and r[0] == "enum" and r[2] == "0":
+            nret += 1
+            okv = r[3]["Ok"]
+            val = okv[1][1] if okv[0] == "tuple" and len(okv[1]) == 2 else None
+            if not (val is not None and val[0] == "variant" and val[2] == "String" and acc is not None and str(val[3][0]) == str(acc)):
+                probs.append("the value returned is not the string built")
+        bad.append(pc_term(p.pc) if probs else "false")
+    # the two spellings: the same worker, once per quote character
+    ps = a.exec(r"(?:rules::parser::)?parse_string", {"call_mut": m_result_opq, "call": m_result_opq, "parse": m_result_opq}, log=("*",), unroll=1,
+                max_paths=50, first_arg_re=r"_1: LocatedSpan")
+    quotes = sorted(str(e[2][0][1]) for p in ps.paths for e in p.events if e[0] == "call" and e[1] == "parse_string_inner" and e[2] and e[2][0][0] == "char")
+    if sorted(set(quotes)) != ["\"", "'"] and sorted(set(quotes)) != ["'", '\\"'] and len(set(quotes)) != 2:
+        bad.append("true")
+    c = a.discharge("parser/strings/one-worker-per-quote", ex, bad,
+                    f"string literals ({nret} returning paths; every combinator application an arbitrary parse result): the opening quote, the "
+                    "stop character of the scan, the closing quote and the character an escaped quote is restored to are all the ONE delimiter the "
+                    "worker was created with; fragments are appended verbatim to one string, which is the value returned; parse_string offers that "
+                    f"worker once for each of the two quote characters (seen: {quotes})", witness=False)
+    if c:
+        c["replay"] = replay_spellings(a)
+        c["reproduced"] = c["replay"].get("reproduced", False)
+        a.candidates.append(c)
+
+
 def replay_spellings(a):
     """one rules file written in two spellings (documented synonyms only) must give the same statuses and exit code"""
     exe = a.cli()
     if not exe:
         return {"reproduced": False, "note": "native build failed"}
-    data = ('{"Resources": {"q": {"Type": "AWS::SQS::Queue", "Properties": {"x": 1, "l": [1, 2], "s": "a"}},\n'
+    data = ('{"Resources": {"q": {"Type": "AWS::SQS::Queue", "Properties": {"x": 1, "l": [1, 2], "s": "a", "e": "it\'s", "d": "say \\"hi\\""}},\n'
             ' "b": {"Type": "AWS::S3::Bucket", "Properties": {"x": 2, "l": [], "s": "b"}}}, "a": 1}\n')
     pairs = [
         ("rule r when a == 1 {\n  a >= 1\n}\n", "rule r WHEN a == 1 {\n  a >= 1\n}\n"),
@@ -168,6 +223,8 @@ def replay_spellings(a):
         ("rule r {\n  a == 2 or a == 1\n}\n", "rule r {\n  a == 2 |OR| a == 1\n}\n"),
         ("let v = a\nrule r {\n  %v == 1\n}\n", "let v := a\nrule r {\n  %v == 1\n}\n"),
         ("rule r {\n  Resources.q.Properties.s == 'a'\n}\n", "rule r {\n  Resources.q.Properties.s == \"a\"\n}\n"),
+        ("rule r {\n  Resources.q.Properties.e == 'it\\'s'\n}\n", "rule r {\n  Resources.q.Properties.e == \"it's\"\n}\n"),
+        ("rule r {\n  Resources.q.Properties.d == \"say \\\"hi\\\"\"\n}\n", "rule r {\n  Resources.q.Properties.d == 'say \"hi\"'\n}\n"),
         ("rule r {\n  Resources.q.Properties.l[1] == 2\n}\n", "rule r {\n  Resources.q.Properties.l.1 == 2\n}\n"),
         ("rule r {\n  a == 1\n}\n", "rule r {\n  this.a == 1\n}\n"),
         ("rule r {\n  a is_int\n  Resources.q.Properties.s is_string\n  Resources.q.Properties.l is_list\n  Resources.q is_struct\n}\n",
@@ -201,4 +258,5 @@ def replay_spellings(a):
             "note": ("a spelling did not parse: " + str(notran[:2])) if notran else None}
 
 
-SITES = {"C14": [keyword_tables, type_block_desugar, parser_clause_wiring]}
+from mirblocks import type_block, guard_block
+SITES = {"C14": [keyword_tables, type_block_desugar, parser_clause_wiring, quoting_wiring, type_block, guard_block]}
